@@ -25,10 +25,12 @@ master role is the master engine's):
    panics are explicit values, so "no panic" is a statement and "no spin" is: no loop depends on
    its fuel).  Proofs in `Proofs/NoPanicLink.lean`, `Proofs/NoPanicOutstation.lean` and
    `Proofs/NoPanicOutstationDb.lean`.
-3. The genuine exception on the unchanged tree, with a witness: D1 (OPERATE echo larger than the
-   solicited buffer).  Repaired: D2 (`RangedBytesIterator` index overflow, `fix:` 320622f) and D3
-   (event-counter underflow: `EventBuffer::insert` now takes a discarded `Written` record out of
-   `written` too; `no_counter_underflow`, regression corpus).
+3. No exception is left on the outstation side: `outstation_step_no_panic` holds for every state of every
+   trace from construction and every input.  Repaired: D1 (OPERATE echo larger than the solicited buffer:
+   `handle_operate` keeps the `Result` of its echo writers like `handle_select` / `handle_direct_operate`; the
+   former witness is answered, `outstation_former_d1_witness_answered`), D2 (`RangedBytesIterator` index
+   overflow, `fix:` 320622f) and D3 (event-counter underflow: `EventBuffer::insert` now takes a discarded
+   `Written` record out of `written` too; `no_counter_underflow`); regression corpus for all three.
 -/
 namespace Dnp3.Props.C01
 open Dnp3 Dnp3.App Dnp3.Proofs.NoPanicLink Dnp3.Proofs.NoPanicOutstation Dnp3.PanicInventory
@@ -159,12 +161,6 @@ def classified : List Entry := [
     .cannotFail "one count-of-one g52 object (4 + 3 + 1 + 2 = 10 octets) into a solicited buffer of at least 249 octets (BufferSize::MIN)"⟩,
   ⟨3761972865501733996, "outstation/session.rs|OutstationSession::handle_restart|unwrap|.unwrap();|1",
     .cannotFail "one count-of-one g52 object (4 + 3 + 1 + 2 = 10 octets) into a solicited buffer of at least 249 octets (BufferSize::MIN)"⟩,
-  ⟨4120962210501932082, "outstation/session.rs|OutstationSession::handle_operate|unwrap|controls.respond_with_status(&mut cursor, status).unwrap();|0",
-    .knownFinding "D1"⟩,
-  ⟨8770259740808375783, "outstation/session.rs|OutstationSession::handle_operate|unwrap|.unwrap()|0",
-    .knownFinding "D1"⟩,
-  ⟨4120963310013560293, "outstation/session.rs|OutstationSession::handle_operate|unwrap|controls.respond_with_status(&mut cursor, status).unwrap();|1",
-    .knownFinding "D1"⟩,
   ⟨7133588084577880745, "outstation/session.rs|OutstationSession::new_unsolicited_retry_deadline|arith|tokio::time::Instant::now() + self.config.unsolicited_retry_delay|0",
     .notPeerReachable "tokio Instant + configured Duration (keep-alive timeout / unsolicited retry delay): configuration values, no peer octet flows into them"⟩,
   ⟨12062078765128114833, "outstation/session.rs|OutstationSession::on_link_activity|arith|.map(|timeout| tokio::time::Instant::now() + timeout);|0",
@@ -364,14 +360,15 @@ theorem all_sites_classified : ∀ s ∈ Gen.panicSites, s.key ∈ classified.ma
 /-- the inventory is not empty and is the one the generator counted -/
 theorem inventory_size : Gen.panicSites.length = Gen.panicSiteCount := by decide +kernel
 
-/-- the sites that CAN fail on peer input are exactly the three sites of D1 (three `unwrap`s of
-    `handle_operate`); the D2 site (`self.index += 1` of `RangedBytesIterator`) is guarded since
+/-- no site is left that CAN fail on peer input: the three `unwrap`s of `handle_operate` (D1) are gone from
+    the source (the function keeps the `Result` of its echo writers, like `handle_select` /
+    `handle_direct_operate`); the D2 site (`self.index += 1` of `RangedBytesIterator`) is guarded since
     `fix:` 320622f and is covered by `iter_no_panic`; the D3 site (`Count::subtract`) cannot underflow
     since the repair of `EventBuffer::insert` and is covered by `no_counter_underflow` -/
-theorem known_finding_sites : knownFindingIds classified = ["D1", "D1", "D1"] := by decide +kernel
+theorem known_finding_sites : knownFindingIds classified = [] := by decide +kernel
 
 /-- classification statistics (modelled, not peer-reachable, cannot fail, known finding) -/
-theorem classification_counts : countClass classified = (13, 30, 94, 3) := by decide +kernel
+theorem classification_counts : countClass classified = (13, 30, 94, 0) := by decide +kernel
 
 /-! ## 2. link layer: `Parser::parse`, `Reader::read_frame`
 
@@ -517,22 +514,14 @@ unfolded in its proof); the one fact it needs about the database — `unwrittenC
 database reachable from a fresh one — is the database component's `counters_exact`
 (`Props/DbComponent.lean`), brought in by `no_counter_underflow`. -/
 
-/- FULL STATEMENT (false on the unchanged tree, D1):
-   `∀ cfg evMax env s, Outstation.Reachable cfg evMax env s → ∀ i, OOut.panic ∉ (Outstation.step env s i).2`. -/
-
 /-- **`outstation_step_panic_cause`** (database opaque): for EVERY state `s` — reachable or not — and
-    EVERY input `i`, a step of the outstation session panics ONLY IF
-    (a, D1) the fragment being handled — the one just received, or one retained in `s.pending` —
-    parses as an OPERATE (function code 4) made of control headers only whose echo overflows the
-    solicited buffer (`cfg.sol - 4` octets after the response header), or
-    (b) `Db.unwrittenClasses` returns `none` (the checked counter subtraction) on a database
-    reachable from `s.db` by the database operations the session applies (`CounterUnderflow`; the
-    former D3 — excluded by `no_counter_underflow` whenever `s.db` has exact counters). -/
+    EVERY input `i`, a step of the outstation session panics ONLY IF `Db.unwrittenClasses` returns `none`
+    (the checked counter subtraction) on a database reachable from `s.db` by the database operations the
+    session applies (`CounterUnderflow`; the former D3 — excluded by `no_counter_underflow` whenever `s.db`
+    has exact counters).  No request handler panics any more: the `unwrap`s of `handle_operate` on an echo
+    that does not fit the solicited buffer (D1) are gone. -/
 theorem outstation_step_panic_cause (env : OEnv) (s : OState) (i : OInput)
-    (hp : OOut.panic ∈ (Outstation.step env s i).2) :
-    (∃ data, ((∃ src dst, i = .rx src dst data) ∨ (∃ f, s.pending = some f ∧ f.data = data)) ∧
-        OperateEchoOverflows s.cfg.sol data)
-      ∨ CounterUnderflow s.db :=
+    (hp : OOut.panic ∈ (Outstation.step env s i).2) : CounterUnderflow s.db :=
   Proofs.NoPanicOutstation.outstation_step_panic_cause env s i hp
 
 /-- `DbReach db0` (the closure used by `CounterUnderflow` and by the session frame `LeS`) is exactly:
@@ -553,64 +542,59 @@ theorem no_counter_underflow :
 
 example : DbProofs.CountersExact (Db.new 3 none) := DbProofs.new_counters 3 none
 
-/-- every state of every trace from construction is dead (the task panicked: D1) or holds a database
+/-- every state of every trace from construction is alive (the task never panicked) and holds a database
     with exact counters -/
-theorem reachable_db_counters_exact (cfg : OCfg) (evMax : Nat) (env : OEnv) (s : OState)
-    (hr : Outstation.Reachable cfg evMax env s) : s.mode = .dead ∨ DbProofs.CountersExact s.db :=
-  reachable_dead_or_counters hr
+theorem reachable_alive_db_counters_exact (cfg : OCfg) (evMax : Nat) (env : OEnv) (s : OState)
+    (hr : Outstation.Reachable cfg evMax env s) : s.mode ≠ .dead ∧ DbProofs.CountersExact s.db :=
+  reachable_alive_counters hr
 
-/-- one step from ANY state whose database has exact counters panics only by D1 -/
+/-- the start-up pass itself (construction until the task first blocks) does not panic -/
+theorem outstation_start_no_panic (cfg : OCfg) (evMax : Nat) :
+    OOut.panic ∉ (Outstation.start cfg evMax).2 ∧ (Outstation.start cfg evMax).1.mode ≠ .dead :=
+  ⟨(start_alive_counters cfg evMax).1, (start_alive_counters cfg evMax).2.1⟩
+
+/-- one step from ANY state whose database has exact counters does not panic, and a live task stays alive -/
 theorem outstation_step_no_panic_of_counters (env : OEnv) (s : OState) (i : OInput)
-    (hdb : DbProofs.CountersExact s.db) (hp : OOut.panic ∈ (Outstation.step env s i).2) :
-    ∃ data, ((∃ src dst, i = .rx src dst data) ∨ (∃ f, s.pending = some f ∧ f.data = data)) ∧
-        OperateEchoOverflows s.cfg.sol data :=
-  Proofs.NoPanicOutstation.outstation_step_no_panic_of_counters env s i hdb hp
+    (hdb : DbProofs.CountersExact s.db) :
+    OOut.panic ∉ (Outstation.step env s i).2 ∧ (s.mode ≠ .dead → (Outstation.step env s i).1.mode ≠ .dead) :=
+  Proofs.NoPanicOutstation.outstation_step_no_panic_of_counters env s i hdb
 
-/-- **`outstation_step_no_panic_partial`**: on EVERY trace from construction (any configuration, any
-    event-buffer size, any input list) a step of the outstation session panics ONLY IF (D1) the
-    fragment being handled — the one just received, or one retained in `s.pending` — parses as an
-    OPERATE (function code 4) made of control headers only whose echo overflows the solicited buffer
-    (`cfg.sol - 4` octets after the response header).  Nothing else: the counter underflow of D3 is
-    repaired. -/
-theorem outstation_step_no_panic_partial (cfg : OCfg) (evMax : Nat) (env : OEnv) (s : OState)
-    (hr : Outstation.Reachable cfg evMax env s) (i : OInput)
-    (hp : OOut.panic ∈ (Outstation.step env s i).2) :
-    ∃ data, ((∃ src dst, i = .rx src dst data) ∨ (∃ f, s.pending = some f ∧ f.data = data)) ∧
-        OperateEchoOverflows s.cfg.sol data :=
-  outstation_reachable_no_panic_partial hr i hp
+/-- **`outstation_step_no_panic`** (the full statement; was `_partial` + counterexample while D1 stood): on
+    EVERY trace from construction — any configuration (buffer sizes, timeouts, modes; in particular every
+    configuration with the library's minimum buffer sizes), any event-buffer size, any input list — and for
+    EVERY further input (fragment, clock advance, database transaction, point added, disconnect, script
+    change), a step of the outstation session neither panics nor leaves the task dead. -/
+theorem outstation_step_no_panic (cfg : OCfg) (evMax : Nat) (env : OEnv) (s : OState)
+    (hr : Outstation.Reachable cfg evMax env s) (i : OInput) :
+    OOut.panic ∉ (Outstation.step env s i).2 ∧ (Outstation.step env s i).1.mode ≠ .dead :=
+  outstation_reachable_no_panic hr i
 
-/-- the hypotheses are satisfiable, and this is the D1 counterexample to the full statement: tx buffer
-    249, OPERATE of 62 x g41v2 with 16-bit indices (317 octets) against the freshly started session —
-    replayed on the real task by findings/D1.ops (engine outstation) and findings/D1_C01.ops (engine rawbytes) -/
-theorem outstation_step_no_panic_counterexample :
+example : Outstation.Reachable { sol := 249 } 10 {} d1State := d1State_reachable
+
+/-- the former D1 counterexample to the full statement is answered: tx buffer 249, OPERATE of 62 x g41v2
+    with 16-bit indices (317 octets) against the freshly started session — the state is reachable, no panic,
+    the task lives, and exactly one fragment goes out, to the master: `d1Response`, the NO_SELECT (status 2)
+    echo of the 48 objects that fit 249 octets, count patched to 48, FIR FIN, the request's sequence number,
+    IIN2 clean; no control callback is made.  (That the echo is silently truncated is the remaining finding
+    D13.)  Regression cases on the real task: harness/corpus/C12/outstation_D1.ops (engine outstation) and
+    harness/corpus/C01/rawbytes_D1.ops (engine rawbytes) -/
+theorem outstation_former_d1_witness_answered :
     Outstation.Reachable { sol := 249 } 10 {} d1State ∧
-    OOut.panic ∈ (Outstation.step {} d1State (.rx 1 1024 d1Data)).2 ∧ OperateEchoOverflows 249 d1Data :=
-  ⟨.start, d1_panics, d1_example⟩
+    OOut.panic ∉ (Outstation.step {} d1State (.rx 1 1024 d1Data)).2 ∧
+    (Outstation.step {} d1State (.rx 1 1024 d1Data)).1.mode ≠ .dead ∧
+    txFrags (Outstation.step {} d1State (.rx 1 1024 d1Data)).2 = [(1, d1Response)] ∧
+    cbs (Outstation.step {} d1State (.rx 1 1024 d1Data)).2 = [] ∧
+    d1Response = [0xC0, 0x81, 0x80, 0x00, 41, 2, 0x28, 48, 0] ++ (List.replicate 48 [1, 0, 5, 0, 2]).flatten ∧
+    d1Response.length = 249 :=
+  ⟨d1State_reachable, not_mem_of_any_isPanic d1_answered.1, ne_dead_of_isDead d1_answered.2.1,
+   d1_answered.2.2.1, d1_answered.2.2.2.1, rfl, d1_answered.2.2.2.2⟩
 
 /-- **`outstation_dies_only_by_panic`**: `Mode.dead` is entered only together with the `panic` output -/
 theorem outstation_dies_only_by_panic (env : OEnv) (s : OState) (i : OInput) (hs : s.mode ≠ .dead)
     (hd : (Outstation.step env s i).1.mode = .dead) : OOut.panic ∈ (Outstation.step env s i).2 :=
   dead_only_by_panic env s i hs hd
 
-example : d1State.mode ≠ .dead := fun h => by
-  have : isDead d1State.mode = true := h ▸ rfl
-  revert this; decide +kernel
-
-/-- **`outstation_no_panic_of_fits`**: no D1 fragment at hand ⇒ no panic, whatever the reachable state
-    and whatever the input -/
-theorem outstation_no_panic_of_fits (cfg : OCfg) (evMax : Nat) (env : OEnv) (s : OState)
-    (hr : Outstation.Reachable cfg evMax env s) (i : OInput)
-    (hfit : ∀ data, ((∃ src dst, i = .rx src dst data) ∨ (∃ f, s.pending = some f ∧ f.data = data)) →
-      ¬ OperateEchoOverflows s.cfg.sol data) :
-    OOut.panic ∉ (Outstation.step env s i).2 :=
-  outstation_reachable_no_panic_of_fits hr i hfit
-
-example (cfg : OCfg) (evMax : Nat) (s : OState) (hr : Outstation.Reachable cfg evMax {} s) (hpend : s.pending = none) :
-    OOut.panic ∉ (Outstation.step {} s (.tick 5)).2 :=
-  outstation_no_panic_of_fits cfg evMax {} s hr (.tick 5) (by
-    rintro data (⟨src, dst, h⟩ | ⟨f, hf, -⟩)
-    · cases h
-    · rw [hpend] at hf; cases hf)
+example : d1State.mode ≠ .dead := (reachable_alive_db_counters_exact _ _ _ _ d1State_reachable).1
 
 /-- the former D3 counterexample, in the model with the real database: event buffer of one event per
     type, a class-1 event transmitted unsolicited (Written), a class-2 event of the same type overflows
@@ -651,7 +635,7 @@ example : ((OState.init {} 10, []) : Acc).1.cfg.keepalive ≠ some 0 := by decid
 example := @link_reader_buffer_invariant
 example := @transport_no_panic
 example := @iter_no_panic
-example := @outstation_step_no_panic_partial
+example := @outstation_step_no_panic
 example := @no_counter_underflow
 
 end Dnp3.Props.C01
